@@ -216,6 +216,32 @@ def _dyn_program(tree, hist, second, init, nwait, task_last=False):
     return {'objs': objs, '_nops': 30, '_tree': tree, 'roots': [['root', [['SCOPE', 's', body], ['PROBE', 'now']]]]}
 
 
+def route_programs():
+    """a resource level that changes because a borrower LEAVES its block - by every route (normal exit, exception, until-interrupt,
+    cancellation at every boundary, forceful close as a volatile child / by an aborting scope) - while waiters wait for it"""
+    B = lambda body: ['BORROW', 'r', {'a': 1}, body]
+    routes = {
+        'normal': [['DO', 'h1', [B([['D', 1]])]]],
+        'raise': [['DO', 'h1', [['TRY', [B([['D', 1], ['RAISE', 'KeyError', 'x']])]]]]],
+        'until': [['DO', 'h1', [['UNTIL', 'u', ['DELAY', 1], [B([['ETERNITY']])]]]]],
+        'cancel': [['DO', 'h1', [B([['ETERNITY']])]], ['DO', 'c', [['D', 1], ['CANCEL', 'h1']]]],
+        'close-volatile': [['DO', 'own', [['SCOPE', 'in', [['DO', 'h1', [B([['ETERNITY']])], {'volatile': True}], ['D', 1]]]]]],
+        'close-abort': [['DO', 'own', [['TRY', [['SCOPE', 'in', [['DO', 'h1', [B([['ETERNITY']])]], ['D', 1], ['RAISE', 'KeyError', 'y']]]]]]]],
+        'nested': [['DO', 'h1', [['UNTIL', 'u', ['DELAY', 1], [B([['BORROW', '@', {'a': 1}, [['ETERNITY']]]])]]]]],
+    }
+    trees_ = [['R', 'r', '>=', {'a': 1}], ['R', 'r', '==', {'a': 1}], ['NOT', ['R', 'r', '<', {'a': 1}]], ['R', 'r', '>', {'a': 0}],
+              ['AND', ['R', 'r', '>=', {'a': 1}], ['GE', 0]], ['OR', ['R', 'r', '>=', {'a': 1}], ['F', 'A']]]
+    out = []
+    for rname, holder in routes.items():
+        for tree in trees_:
+            for nwait in (1, 2):
+                ws = [['DO', 'w%d' % (i + 1), [['WAIT', tree], ['PROBE', 'now']], {'volatile': True}] for i in range(nwait)]
+                body = [['DO', 't', [['D', 5]]]] + holder + ws + [['D', 3]]
+                out.append({'objs': {'A': 'Flag', 'B': 'Flag', 'X': ['Tracked', 0], 'Y': ['Tracked', 0], 'r': ['Resources', {'a': 1}]},
+                            '_nops': 40, '_tree': tree, '_route': rname, 'roots': [['root', [['SCOPE', 's', body], ['PROBE', 'now']]]]})
+    return out
+
+
 def histories(maxlen):
     acts = ['A+', 'B+', 'X+', 'Y-', 'T!', 'A-', 'X-', 'R+']
     out = [[]]
@@ -293,6 +319,8 @@ def cases(tier):
                 t_last, a_last = h[-1]
                 if a_last in REVERT:
                     out.append({'kind': 'dyn', 'prog': dyn_program(tree, h, [(t_last, REVERT[a_last])], (0, 0), 1)})
+    for prog in route_programs():
+        out.append({'kind': 'dynfault', 'prog': prog})
     for tree in NOW_TREES:
         at = atoms_of(tree)
         for h in histories(1):
